@@ -741,6 +741,25 @@ func c12IndexValueRemapped(c *Ctx, pk *packages.Package) {
 			for _, el := range variadicElems(call.Call.Args[1]) {
 				n++
 				fromTable := false
+				// the table may also be a map made in this function
+				if lk, ok := stripConv(el).(*ssa.Lookup); ok {
+					sliceBack(lk.X, func(x ssa.Value) bool {
+						if _, isMake := x.(*ssa.MakeMap); isMake {
+							fromTable = true
+						}
+						return !fromTable
+					})
+				}
+				if ex, ok := stripConv(el).(*ssa.Extract); ok {
+					if lk, ok := ex.Tuple.(*ssa.Lookup); ok && ex.Index == 0 {
+						sliceBack(lk.X, func(x ssa.Value) bool {
+							if _, isMake := x.(*ssa.MakeMap); isMake {
+								fromTable = true
+							}
+							return !fromTable
+						})
+					}
+				}
 				if u, ok := stripConv(el).(*ssa.UnOp); ok && u.Op == token.MUL {
 					if ia, ok := u.X.(*ssa.IndexAddr); ok {
 						sliceBack(ia.X, func(x ssa.Value) bool {
